@@ -56,6 +56,9 @@ def plan(ctx):
     for i, text in enumerate(["l | map(g)", "k + g(k)", "g(1) if l else k"]):
         obs.append(Obligation(f"O4.ast_names.t{i}", "xh", "c01", "api_ast_names", param={"text": text}, timeout=T * 2,
                               bounds="N>=1 unbounded; host list <= 3", desc=f"eval({text!r}, ast_names={{g: lambda, k: expr}}): definitions and the lambdas they create are charged to this call"))
+    obs.append(Obligation("O3.abort_prefix", "xh", "c01", "abort_prefix", timeout=T * 3,
+                          bounds="3 programs of 4..8 statements (assignments, probe calls, pushes into host containers, a mapped lambda); budget 1..60 (finite domain, native)",
+                          desc="names, host containers and probe log after a run that hit its budget together form a state the unbounded run passes through (nothing undone, nothing skipped)"))
     from sqv.harness import c01 as h
     for i, text in enumerate(h.EFFECTS):
         obs.append(Obligation(f"O5.effects_bounded.t{i}", "xh", "c01", "effects_bounded", param={"t": i}, timeout=T * 2,
